@@ -122,7 +122,7 @@ _reg(
     "(1 symbol: {1,2,3,5,8,13}; 2 symbols: 7 points incl. equal / unequal / size-1; 3 symbols: 9 points; thorough adds primes up to 31 and 64) "
     "and compared with eager JAX on arrays of that size (values and runtime shapes). evaluations = (program, binding) executions compared; "
     "non-trivial = >= 1 finite element compared; distinct = (program, binding).",
-    (1200, 1000, 6000, 5000),
+    (1200, 1000, 4400, 4400),
     "differential runtime monitor over a lattice of symbol bindings: ORT outputs and runtime shapes vs eager JAX on arrays of the bound size",
     "DESIGN.md 3/C04",
     "Exploration over all registered symbolic-dimension programs and a hand-written shape-arithmetic family; one export, many bindings.",
